@@ -40,7 +40,10 @@ def blake_dims(model, res):
     cls = model.get_class(BLAKE)
     out = load_spec('output_dims.json')
     out = dict(out, curr_posn={'L': 1})
-    b, S, ev = analyse_class(model, cls, {'r': {'L': 1}, 't': {'T': 1}}, out)
+    P = {'M': 1, 'L': -1, 'T': -2}
+    pd = {'lame_mod': P, 'shear_mod': P, 'youngs_mod': P, 'bulk_mod': P, 'long_mod': P, 'poisson_ratio': '1',
+          'pressure_scale': P, 'ref_density': {'M': 1, 'L': -3}, 'cavity_radius': {'L': 1}}
+    b, S, ev = analyse_class(model, cls, {'r': {'L': 1}, 't': {'T': 1}}, out, param_dims_spec=pd)
     findings_from(S, ev, PROP, 'C15.dim', res)
     anchored = [nm for nm, d, _ in ev.outputs if nm in out and isinstance(d, Lin)]
     if len(anchored) < 12:
